@@ -142,7 +142,11 @@ def live_runs(env: Env, out: Outcome, n: int, monitors: list[Callable[[Trace], l
         if len(out.samples) < 4 and ncalls > 4:
             out.sample({"spec": spec, "outcome": tr.outcome[0], "ticks": ncalls,
                         "stream": [enc_pub(e) for (e, *_r) in tr.stream][:40]})
-        if check_runner and tr.outcome[0] not in ("invalid",):
+        if check_runner and spec.get("drain_after_end") and not all(float(c.now).is_integer() for c in tr.calls):
+            # slow-teardown specs (opt-in): the engine model's clock is integral; a run whose reducer is called again after a
+            # used-up cancel grace (+0.5 s) cannot be encoded.  Any other spec with a fractional time still fails to encode.
+            out.count("live:runner_correspondence_skipped_fractional_time")
+        elif check_runner and tr.outcome[0] not in ("invalid",):
             try:
                 o, e = corr.runner_lines(tr, lifecycle=lifecycle)
             except Exception as ex:
